@@ -45,6 +45,12 @@ def ev(node, env: dict, funcs: dict | None = None):
             d = dotted(n)
             if d is not None and d in env:
                 return env[d]
+            try:
+                obj = e(n.value, env)
+            except NotFinite:
+                raise NotFinite(f"unbound attribute {unparse(n)}")
+            if n.attr in getattr(obj, "_fin_attrs", ()):
+                return getattr(obj, n.attr)
             raise NotFinite(f"unbound attribute {unparse(n)}")
         if isinstance(n, ast.UnaryOp):
             v = e(n.operand, env)
@@ -84,6 +90,8 @@ def ev(node, env: dict, funcs: dict | None = None):
             return True
         if isinstance(n, ast.IfExp):
             return e(n.body, env) if e(n.test, env) else e(n.orelse, env)
+        if isinstance(n, ast.Slice):
+            return slice(e(n.lower, env) if n.lower else None, e(n.upper, env) if n.upper else None, e(n.step, env) if n.step else None)
         if isinstance(n, ast.Tuple):
             return tuple(e(x, env) for x in n.elts)
         if isinstance(n, ast.List):
@@ -158,8 +166,9 @@ def _bind(target, value, env):
         raise NotFinite("bind target")
 
 
-def run_function(f, args: dict, funcs=None, env=None):
-    """Evaluate a straight-line integer function (assignments, if/else, return) on given arguments."""
+def run_function(f, args: dict, funcs=None, env=None, final_env=None):
+    """Evaluate a straight-line integer function (assignments, if/else, return) on given arguments.
+    final_env: a dict that receives the environment at exit (attribute stores are kept under their dotted names)."""
     env = dict(env or {})
     env.update(args)
 
@@ -183,6 +192,13 @@ def run_function(f, args: dict, funcs=None, env=None):
                 op = _BIN.get(type(st.op))
                 env[st.target.id] = op(env[st.target.id], ev(st.value, env, funcs))
                 continue
+            if isinstance(st, ast.AugAssign) and isinstance(st.target, ast.Attribute) and dotted(st.target) in env:
+                op = _BIN.get(type(st.op))
+                env[dotted(st.target)] = op(env[dotted(st.target)], ev(st.value, env, funcs))
+                continue
+            if isinstance(st, ast.Expr) and isinstance(st.value, ast.Call):
+                ev(st.value, env, funcs)
+                continue
             if isinstance(st, ast.If):
                 run(st.body if ev(st.test, env, funcs) else st.orelse)
                 continue
@@ -191,6 +207,8 @@ def run_function(f, args: dict, funcs=None, env=None):
     def _bind2(t, v):
         if isinstance(t, ast.Name):
             env[t.id] = v
+        elif isinstance(t, ast.Attribute) and dotted(t) is not None:
+            env[dotted(t)] = v
         elif isinstance(t, (ast.Tuple, ast.List)):
             vals = list(v)
             star = [i for i, x in enumerate(t.elts) if isinstance(x, ast.Starred)]
@@ -214,5 +232,9 @@ def run_function(f, args: dict, funcs=None, env=None):
     try:
         run(strip_docstring(f.body))
     except _Ret as r:
+        if final_env is not None:
+            final_env.update(env)
         return r.v
+    if final_env is not None:
+        final_env.update(env)
     return None
